@@ -67,6 +67,13 @@ def campaign(ctx, quick=None):
     out = ctx.batch([("co|%d" % i, c["script"]) for i, c in enumerate(cs)], clean=True, op_timeout=20)
     stats = collections.Counter()
     findings = []
+    # what lean/SfModel/CloseOwn.lean (`sfmodel shortio`, request `close`) says per route -- for ANY handler result (the handlers' results are not observable
+    # from outside; `close_blind_to_handlers` is why one request per route is enough): close (2) itself succeeds in every case here
+    ROUTE_REQ = {"fd1": "close vio=0 keep=0 codec=- container=- os=0", "fd0": "close vio=0 keep=1 codec=1 container=- os=0",
+                 "path": "close vio=0 keep=0 codec=7 container=3 os=0", "vio": "close vio=1 keep=0 codec=- container=- os=0"}
+    order = sorted(ROUTE_REQ)
+    ans = ctx.run_model(["shortio"], "".join(ROUTE_REQ[r] + "\n" for r in order)).strip().split("\n")
+    MODEL = {r: dict(x.split("=") for x in a.split()) for r, a in zip(order, ans)}
     groups = collections.defaultdict(list)
     for i, c in enumerate(cs):
         c["lines"] = out.get("co|%d" % i, [])
@@ -92,6 +99,11 @@ def campaign(ctx, quick=None):
                 stats["closes_that_reported_a_problem"] += 1
                 ctx.distinct.add("closeown:%s:ret!=0" % c["kind"])
             ctx.distinct.add("closeown:%s:%s" % (c["kind"], c["route"]))
+            stats["closes_compared_with_the_model"] += 1
+            if ret != int(MODEL[c["route"]]["ret"]):
+                findings.append((c, "routes", "sf_close returned %d; Sf.CloseOwn.psfClose (what psf_fclose answered, whatever the close handlers reported) says %s: %s" % (ret, MODEL[c["route"]]["ret"], cl)))
+            if fo is not None and (fo == "0") != (MODEL[c["route"]]["closed"] == "1"):
+                findings.append((c, "descriptor", "descriptor %s after sf_close; Sf.CloseOwn.psfClose says closed=%s (route %s, sf_close returned %d)" % ("open" if fo == "1" else "closed", MODEL[c["route"]]["closed"], c["route"], ret)))
             if c["route"] == "fd1" and fo != "0":
                 findings.append((c, "descriptor", "sf_open_fd (close_desc = 1): the descriptor is still open after sf_close (sf_close returned %d): %s" % (ret, cl)))
             if c["route"] == "fd0" and fo != "1":
